@@ -13,7 +13,9 @@ class Unit:
                  harness=None, setup='', args=None, post='', backend='cadical', timeout=600, mem_gb=12,
                  rec=False, cbmc_flags=(), props=(), note='', extra_c='', expect_fail=(), opaque=None,
                  split=False, tier='quick', unwindset=(), defines=(), extern_records=(), bounded=None,
-                 stubs=(), variants=None, pre_c='', object_bits=None, checks=None, weight=1, bind='', ghost=(), bind_assigns=(), gen_stubs=None, lifted_loops=None, auto_inline=(), lifted_target=None, lifted_stub=None):
+                 stubs=(), variants=None, pre_c='', object_bits=None, checks=None, weight=1, bind='', ghost=(), bind_assigns=(), gen_stubs=None, lifted_loops=None, auto_inline=(), lifted_target=None, lifted_stub=None, rename_calls=None, arrays_uf=True):
+        self.arrays_uf = arrays_uf   # --arrays-uf-always helps with the big byte windows and hurts units without arrays (T25)
+        self.rename_calls = rename_calls or {}   # {callee C name: stub name}: call sites in the target's body are renamed (recursive calls -> contract stub)
         self.lifted_target = lifted_target   # regex: verify this lambda-lifted helper of fn instead of fn itself
         self.lifted_stub = lifted_stub       # callable(ast, L, tf, lifted) -> {cname: C body}: lifted helpers replaced by executable contracts
         self.auto_inline = list(auto_inline)   # regexes: callees lowered and inlined automatically (constructors, reset, trivial helpers)
@@ -402,6 +404,8 @@ def build_c(ast, unit, registry):
     stub_rx = [x for x in unit.stubs if isinstance(x, str) and re.search(r'[\[\]+*^$]', x)]
     for f, _, _ in fns:
         for c in f.calls:
+            if f is tf and c in unit.rename_calls:
+                continue
             if c not in have and c not in missing and not any(re.match(rx + '$', c) for rx in stub_rx):
                 missing.append(c)
     facts = {'target': tf.cname, 'src': tf.src, 'locals': tf.locals, 'loops': tf.loops,
@@ -425,7 +429,13 @@ def build_c(ast, unit, registry):
     parts.append(unit.extra_c)
     parts.extend(gen)
     for f, c, lc in reversed(fns):
-        parts.append(insert_binds(cdns2c.render(f, c, lc), binds, f))
+        text = insert_binds(cdns2c.render(f, c, lc), binds, f)
+        if f is tf and unit.rename_calls:
+            head, sep, body = text.partition('{')
+            for a, b in unit.rename_calls.items():
+                body = re.sub(r'\b%s\(' % re.escape(a), b + '(', body)
+            text = head + sep + body
+        parts.append(text)
     # harness
     if unit.harness is not None:
         h = subst(unit.harness, tf).replace('$FN', tf.cname)
@@ -615,7 +625,7 @@ def compile_unit(ast, unit, registry, wd, defines=()):
 
 
 def cbmc_cmd(unit, gb, extra=()):
-    cmd = ['cbmc', gb, '--json-ui', '--arrays-uf-always', '--object-bits', str(unit.object_bits or 8)] + CHECK_FLAGS
+    cmd = ['cbmc', gb, '--json-ui'] + (['--arrays-uf-always'] if getattr(unit, 'arrays_uf', True) else []) + ['--object-bits', str(unit.object_bits or 8)] + CHECK_FLAGS
     cmd += BACKENDS[unit.backend]
     for u in unit.unwindset:
         cmd += ['--unwindset', u]
@@ -736,11 +746,25 @@ def check_unit(ast, unit, registry, wd, variant=None):
     elif not r.canaries:
         r.reason = 'no canary in unit'
     elif any(st == 'SUCCESS' for _, st in r.canaries.values()):
-        r.reason = 'vacuous: canary unreachable: ' + ', '.join(d for d, st in r.canaries.values() if st == 'SUCCESS')
+        dead = [d for d, st in r.canaries.values() if st == 'SUCCESS']
+        live = [d for d, st in r.canaries.values() if st != 'SUCCESS']
+        if live and dead == ['CANARY normal return reachable']:
+            # the preconditions are satisfiable (another exit is reachable) but the function can never return normally: that is a
+            # violation of every 'accepts ...' property, reported as a failed obligation of its own
+            oid = tname_of(r) + '.reachability.normal_return'
+            r.obligations[oid] = {'desc': 'the function returns normally for some input satisfying its precondition', 'status': 'FAILURE'}
+            r.failed.append(oid)
+            r.status = 'failed'
+        else:
+            r.reason = 'vacuous: canary unreachable: ' + ', '.join(dead)
     else:
         r.status = 'failed' if r.failed else 'ok'
     r.wall = time.time() - t0
     return r
+
+
+def tname_of(r):
+    return r.facts.get('target', 'unit')
 
 
 def get_trace(unit, gb, pid, timeout=600):
